@@ -383,6 +383,14 @@ def check(run) -> None:
         run.traces += 1
         run.case(json.dumps(c["h"], sort_keys=True))
         judge(run, c, o, c["origin"])
+    scases = [{"kind": kd, "t2_k": ks, "h": hi} for kd in ("lru", "bytes") for ks in (None, 0, 1, 2, 64) for hi in range(len(STAGE_HISTS))]
+    for c, fl in zip(scases, pmap(stage_level_case, scases, chunk=2)):
+        run.traces += 1
+        run.case(("stage_level", json.dumps(c, sort_keys=True)))
+        if not fl:
+            run.ok("HitEqualsFresh.stage_level_equal")
+        for clause, msg in fl:
+            run.fail(clause, {"cache": "stage-level", "kind": c["kind"]}, c, msg, replay={"stage": c})
     if witnesses:
         run.sample({"stale_witness": witnesses[0]["h"]}, cap=3)
     if behaviours:
@@ -392,8 +400,69 @@ def check(run) -> None:
                         "after the first divergence of a history later turns are not judged (state has diverged)"]
 
 
+# ---- stage-level differential over the cache configurations (LRU+TTL, byte-bounded) and slice caps ----------------------
+STAGE_HISTS = [["q1", "q1", "q2", "q1"], ["q1", "edit", "q1", "q1"], ["q2", "q2", "mem", "q2", "q1", "q1"], ["q1", "q2", "q1", "edit", "q2", "q2"]]
+
+
+def stage_level_case(case) -> List[Tuple[str, str]]:
+    """T1 + T2 called directly (as the orchestrator calls them) over a small history, caches on vs off, for the ordinary
+    stage caches and for the byte-bounded perf caches, without and with a scheduler slice cap on the context"""
+    from .. import engine as E
+    from clematis.engine.stages.t1 import t1_propagate
+    from clematis.engine.stages.t2.core import t2_semantic
+    from clematis.engine.types import Edge
+    kind, k_slice, hist = case["kind"], case["t2_k"], STAGE_HISTS[case["h"]]
+    fails: List[Tuple[str, str]] = []
+    runs = {}
+    for cached in (True, False):
+        over = {"t1": {"cache": {"enabled": cached and kind == "lru", "max_entries": 64, "ttl_s": 3600}},
+                "t2": {"cache": {"enabled": cached and kind == "lru", "max_entries": 64, "ttl_s": 3600}, "sim_threshold": -1.0, "k_retrieval": 8}}
+        if kind == "bytes":
+            over["perf"] = {"enabled": True, "t1": {"cache": {"max_entries": 64 if cached else 0, "max_bytes": 1 << 20 if cached else 0}},
+                            "t2": {"cache": {"max_entries": 64 if cached else 0, "max_bytes": 1 << 20 if cached else 0}}}
+        cfg = E.validated_cfg(over)
+        E.reset_global_caches()
+        st = E.mk_state(E.DEFAULT_GRAPHS, E.default_episodes())
+        seq = []
+        for step, ev in enumerate(hist):
+            if ev == "edit":
+                g = st["store"].get_graph("g:surface")
+                st["store"].upsert_edges("g:surface", [Edge(id="e1", src="n:apple", dst="n:banana", weight=0.9 if g.edges["e1"].weight != 0.9 else 0.1, rel="supports")])
+                seq.append(None)
+                continue
+            if ev == "mem":
+                st["mem_index"].add(E.mk_episode("epX", "A", "apple pie with banana and dates", ts="2025-08-25T00:00:00Z", importance=0.5))
+                seq.append(None)
+                continue
+            ctx = E.mk_ctx(cfg, "A", step + 1)
+            if k_slice is not None:
+                ctx.slice_budgets = {"t2_k": k_slice}
+            text = {"q1": "apple pie", "q2": "banana bread and dates"}[ev]
+            t1 = t1_propagate(ctx, st, text)
+            t2 = t2_semantic(ctx, st, text, t1)
+            seq.append((_proj_t1(t1), _proj_t2(t2)))
+        runs[cached] = seq
+    E.reset_global_caches()
+    for i, (a, b) in enumerate(zip(runs[True], runs[False])):
+        if a != b:
+            stage = "t1" if a[0] != b[0] else "t2"
+            fails.append(("HitEqualsFresh", f"{kind} stage caches, slice t2_k={k_slice}, history {hist}: step {i} ({hist[i]}) {stage} differs: "
+                                            f"{_diff(a[0 if stage == 't1' else 1], b[0 if stage == 't1' else 1])}"))
+            break
+    return fails
+
+
 def replay(rep) -> int:
     os.makedirs("/verif/.work/C05", exist_ok=True)
+    if "stage" in rep["replay"]:
+        fl = stage_level_case(rep["replay"]["stage"])
+        for f in fl:
+            print(": ".join(f))
+        if fl:
+            print(f"VIOLATION property=C05 replay={rep.get('_path', '?')}")
+            return 1
+        print("replay: caches on == caches off")
+        return 0
     h = rep["replay"]["h"]
     out = replay_history({"h": h, "workdir": "/verif/.work/C05", "init_eps": rep["replay"].get("init_eps", [])})
     print(json.dumps(out, indent=1, default=str)[:4000])
